@@ -97,6 +97,10 @@ func txPath(c txCase, s txSess, med, otc uint32, unknowns []int) *route.Path {
 		b.ASPathLen = b.ASPath.Length()
 		b.Prepend(65000, 1)
 	}
+	if c.Flavour == "prepend-many" {
+		b.ASPathLen = b.ASPath.Length()
+		b.Prepend(65000, 10)
+	}
 	b.ASPathLen = b.ASPath.Length()
 	return &route.Path{Type: route.BGPPathType, BGPPath: b}
 }
